@@ -5,7 +5,9 @@ import json, os, shutil, subprocess, sys, tempfile
 from pathlib import Path
 VERIF = Path(__file__).resolve().parent.parent
 pid = sys.argv[1]
-src = Path("/tmp/seed-out") / pid
+gen2 = len(sys.argv) > 2 and sys.argv[2] == "gen2"     # second generation of seeds: ids Cxx-3, Cxx-4
+src = Path("/tmp/seed-out2" if gen2 else "/tmp/seed-out") / pid
+OFF = 2 if gen2 else 0
 for n in (1, 2, 3):
     diff, demo, meta = src / f"mutant{n}.diff", src / f"demo{n}.py", src / f"meta{n}.json"
     if not diff.exists():
@@ -24,9 +26,9 @@ for n in (1, 2, 3):
         bl = subprocess.run(["/venv/bin/python", str(VERIF / "lib" / "baseline.py")], env=dict(os.environ, VERIF_REPO=wt), capture_output=True, text=True)
         ran.append({"cmd": "VERIF_REPO=<worktree+patch> lib/baseline.py", "exit": bl.returncode, "tail": bl.stdout.strip().splitlines()[-1:]})
         ok = r0.returncode == 0 and ap.returncode == 0 and r1.returncode != 0 and bl.returncode == 0
-        print(f"{pid}-{n}: demo_unchanged={r0.returncode} apply={ap.returncode} demo_mutant={r1.returncode} baseline={bl.returncode} -> {'KEEP' if ok else 'REJECT'}")
+        print(f"{pid}-{n + OFF}: demo_unchanged={r0.returncode} apply={ap.returncode} demo_mutant={r1.returncode} baseline={bl.returncode} -> {'KEEP' if ok else 'REJECT'}")
         if ok:
-            d = VERIF / "seeded" / f"{pid}-{n}"
+            d = VERIF / "seeded" / f"{pid}-{n + OFF}"
             d.mkdir(parents=True, exist_ok=True)
             shutil.copy(diff, d / "patch.diff"); shutil.copy(demo, d / "demo.py")
             m = json.loads(meta.read_text()) if meta.exists() else {"property": pid}
